@@ -53,17 +53,29 @@ class LotkaVolterraOscillating:
         self._gaussian = distributions.MultivariateNormal(
             loc=mean, covariance_matrix=covariance
         )
-        self._uniform = BoxUniform(low=-5 * torch.ones(4), high=2 * torch.ones(4))
+        # Only the support of the box is used (not its density), also for values outside it.
+        self._uniform = distributions.Independent(
+            distributions.Uniform(
+                low=-5 * torch.ones(4), high=2 * torch.ones(4), validate_args=False
+            ),
+            1,
+            validate_args=False,
+        )
+        # Mass of the Gaussian inside the box: prod_i [Phi((2 - m_i) / s) - Phi((-5 - m_i) / s)].
+        sqrt2 = 2 ** 0.5
         self._log_normalizer = -torch.log(
-            torch.erf((2 - mean) / sigma) - torch.erf((-5 - mean) / sigma)
+            0.5
+            * (
+                torch.erf((2 - mean) / (sigma * sqrt2))
+                - torch.erf((-5 - mean) / (sigma * sqrt2))
+            )
         ).sum()
 
     def log_prob(self, value):
-        unnormalized_log_prob = self._gaussian.log_prob(value) + self._uniform.log_prob(
-            value
-        )
-
-        return self._log_normalizer + unnormalized_log_prob
+        # Gaussian truncated to the box: zero density outside, Gaussian density over its in-box mass inside.
+        in_support = ~torch.isinf(self._uniform.log_prob(value))
+        log_prob = self._log_normalizer + self._gaussian.log_prob(value)
+        return torch.where(in_support, log_prob, torch.full_like(log_prob, -float("inf")))
 
     def sample(self, sample_shape=torch.Size()):
         num_remaining_samples = sample_shape[0]
